@@ -36,6 +36,10 @@ def coq_lens(lens):
     return coq_list(lens, coq_nat)
 
 
+def coq_pol(pol):
+    return coq_list(pol, coq_N)
+
+
 def coq_bytes_list(bs):
     return coq_list([coq_bytes(b) for b in bs])
 
@@ -226,7 +230,7 @@ def rl_run(accept, hint, finished, stream, pol):
         h = hint()
         if len(stream) - pos < h:
             return out + [Tag("would-block"), h, len(stream) - pos]
-        n = 1 + (k % h if h > 0 else k)
+        n = max(0, h if k == 0 else 1 + ((k - 1) % h if h != 0 else k - 1))
         out.append([h, n])
         accept(stream[pos:pos + n])
         pos += n
@@ -258,7 +262,7 @@ def impl_rl(inp):
 
 
 def rl_model_term(inp):
-    pol = coq_lens(inp["pol"])
+    pol = coq_pol(inp["pol"])
     if inp["dec"] == "lp":
         return f"OL [OB (encode_bulk_data {coq_bytes(inp['body'])}); run_rl_lp (encode_bulk_data {coq_bytes(inp['body'])}) {pol}]"
     if inp["dec"] == "ck":
@@ -704,7 +708,7 @@ def gen_level_a(rng, tier, hints=False):
                 yield dict(inp, tail=tail, lens=[1] * (total + len(tail)))
                 for i in range(total + len(tail) + 1):
                     yield dict(inp, tail=tail, lens=[i])
-    n = 300 if not big else 12000
+    n = 300 if not big else 2500
     for _ in range(n):
         body, tail = gen_body(rng, maxlen), gen_tail(rng)
         total = len(P.SmartProtocolBase()._encode_bulk_data(body)) + len(tail)
@@ -737,11 +741,11 @@ def gen_level_a(rng, tier, hints=False):
             total = len(rl_stream(inp))
             mode = rng.random()
             if mode < 0.3:
-                pol = [0] * (total + 1)                       # always one byte
+                pol = [1] * (total + 1)                       # always one byte
             elif mode < 0.5:
-                pol = [4999] * (total + 1)                    # (nearly) always the full hint
+                pol = [0] * (total + 1)                       # always the full hint (a pipe)
             else:
-                pol = [rng.choice([0, 1, 2, 3, 5, 4999, 4998, rng.randint(0, 300)]) for _ in range(total + 1)]
+                pol = [rng.choice([0, 0, 1, 2, 3, 5, rng.randint(0, 300)]) for _ in range(total + 1)]
             inp["pol"] = pol
             yield inp
 
